@@ -72,7 +72,19 @@ func (rm *RegistrationManager) HandleRegUpdates(ctx context.Context, regChan <-c
 	// distribute messages to workers. When workers are unavailable messages are
 	// added into channel buffer until full, then dropped.
 distrLoop:
-	for msg := range regChan {
+	for {
+		var msg interface{}
+		var ok bool
+		select {
+		case <-ctx.Done():
+			// stop even if no further registration arrives on regChan
+			logger.Infof("closing all ingest threads")
+			break distrLoop
+		case msg, ok = <-regChan:
+			if !ok {
+				break distrLoop
+			}
+		}
 		rm.addIngestMessage()
 		select {
 		case <-ctx.Done():
